@@ -416,15 +416,17 @@ theorem ConvexNoPole.no_opposite {o : ℝ} {vs : List (Coo ℝ)} (h : ConvexNoPo
     (`polygon_new_real`) from a strictly convex list of at least 3 vertices, in either winding order (`o = 1`
     counter-clockwise, `o = -1` clockwise), contained in an open hemisphere, with no vertex at a pole and neither pole in
     the closed polygon.  For every point `p` of the sphere other than the poles, whose meridian passes through no vertex
-    and which is on no edge's great circle:
+    and which is not on the boundary of the polygon (`hnb`: in all the closed half-spaces ⇒ in all the open ones; in
+    particular every `p` that is on no edge's great circle):
     `contains p` is `true` iff `p` is strictly inside the half-space of every edge (`o · p · (v_{i-1} × v_i) > 0`). -/
 theorem contains_convex (poly : Polygon ℝ) (hb : poly.Built) (o : ℝ) (h : ConvexNoPole o poly.vertices)
     (p : Coo ℝ) (hp : p.Valid) (hpn : p.NonPole) (hgen : ∀ v ∈ poly.vertices, p.lon ≠ v.lon)
-    (hgc : ∀ e ∈ edges poly.vertices, dot p (cross e.1 e.2) ≠ 0) :
+    (hnb : (∀ e ∈ edges poly.vertices, 0 ≤ o * dot p (cross e.1 e.2)) →
+      ∀ e ∈ edges poly.vertices, 0 < o * dot p (cross e.1 e.2)) :
     poly.contains p = true ↔ ∀ e ∈ edges poly.vertices, 0 < o * dot p (cross e.1 e.2) := by
   rw [contains_parity poly hb h.hv h.no_opposite p hp hgen, hb.csp, h.csp_false, Bool.false_xor, oddB_iff]
   obtain ⟨c1, c2, c3⟩ := convex_edges h.hn h.hconv
-  refine count_convex (edges poly.vertices) o h.ho ?_ c1 c2 c3 ⟨h.hsouth, h.hnorth⟩ p hp hpn ?_ hgc
+  refine count_convex (edges poly.vertices) o h.ho ?_ c1 c2 c3 ⟨h.hsouth, h.hnorth⟩ p hp hpn ?_ hnb
   · intro e he
     have := mem_edges he
     exact ⟨h.hv _ this.1, h.hv _ this.2⟩
@@ -437,15 +439,16 @@ theorem contains_convex_new (dbg : Bool) (lls : List (ℝ × ℝ))
     (hr : ∀ ll ∈ lls, 0 ≤ ll.1 ∧ ll.1 < 2 * π ∧ -(π / 2) ≤ ll.2 ∧ ll.2 ≤ π / 2)
     (o : ℝ) (h : ConvexNoPole o (lls.map cooOf))
     (p : Coo ℝ) (hp : p.Valid) (hpn : p.NonPole) (hgen : ∀ ll ∈ lls, p.lon ≠ ll.1)
-    (hgc : ∀ e ∈ edges (lls.map cooOf), dot p (cross e.1 e.2) ≠ 0) :
+    (hnb : (∀ e ∈ edges (lls.map cooOf), 0 ≤ o * dot p (cross e.1 e.2)) →
+      ∀ e ∈ edges (lls.map cooOf), 0 < o * dot p (cross e.1 e.2)) :
     ∃ poly, Polygon.new dbg lls = some poly ∧
       (poly.contains p = true ↔ ∀ e ∈ edges (lls.map cooOf), 0 < o * dot p (cross e.1 e.2)) := by
   have hne : lls ≠ [] := by
     intro h0; have := h.hn; rw [h0] at this; simp at this
   obtain ⟨poly, hnew, hvs, hb⟩ := polygon_new_real dbg lls hne hr
   refine ⟨poly, hnew, ?_⟩
-  rw [← hvs] at h hgc ⊢
-  apply contains_convex poly hb o h p hp hpn ?_ hgc
+  rw [← hvs] at h hnb ⊢
+  apply contains_convex poly hb o h p hp hpn ?_ hnb
   intro v hv
   rw [hvs] at hv
   obtain ⟨ll, hll, rfl⟩ := List.mem_map.mp hv
